@@ -60,6 +60,14 @@ func Run(r *common.Run) error {
 			if len(f) > 0 && f[0] == "C04" {
 				f = f[1:]
 			}
+			if len(f) == 4 && f[0] == "comp" {
+				codes := []string{}
+				if f[2] != "-" {
+					codes = strings.Split(f[2], ",")
+				}
+				doComp(e, codes, f[3], "replay")
+				continue
+			}
 			if len(f) > 0 && f[0] == "hs" {
 				if err := replayHS(r, f); err != nil {
 					return err
@@ -122,6 +130,13 @@ func Run(r *common.Run) error {
 				e.Do(cs, "fault-callback")
 			}
 		}
+		// every operation blocks in turn (the peer is silent, resp. does not read) and the
+		// context is cancelled while it is blocked
+		for k := 0; k < ops; k++ {
+			cs := base
+			cs.Fault = fmt.Sprintf("B%d", k)
+			e.Do(cs, "blocked-cancel")
+		}
 		// the context is cancelled after every event
 		for n := 0; n <= len(clean.Events); n++ {
 			cs := base
@@ -129,13 +144,25 @@ func Run(r *common.Run) error {
 			e.Do(cs, "cancel")
 		}
 	}
-	r.Exhaustive = append(r.Exhaustive, "every read/write index (single and permanent failure), every end of input, every failing callback and every cancellation instant of 10 instrumented standard handshakes (STARTTLS+auth+voluntary+bind; both roles; TCP/WebSocket; c2s/s2s; pre-secured)")
+	// blocked with nobody cancelling: the call legitimately stays blocked (first write, first
+	// read of the first handshake; the model predicts the same)
+	if hs := handshakes(); len(hs) > 0 {
+		for _, k := range []int{0, 1} {
+			cs := hs[0]
+			cs.Fault = fmt.Sprintf("H%d", k)
+			e.Do(cs, "blocked-forever")
+		}
+	}
+	r.Exhaustive = append(r.Exhaustive, "every read/write index (single and permanent failure), every end of input, every failing callback, every cancellation instant and every operation blocking with cancellation while blocked, of 10 instrumented standard handshakes (STARTTLS+auth+voluntary+bind; both roles; TCP/WebSocket; c2s/s2s; pre-secured)")
 	runReal(r)
+	runComponent(e)
 	n := r.Pick(3000, 40000)
 	for i := 0; i < n; i++ {
 		cs := c01.RandomCase(r.Rnd, true)
 		if r.Rnd.Chance(1, 6) {
 			cs.Fault = fmt.Sprintf("C%d", r.Rnd.Intn(12))
+		} else if r.Rnd.Chance(1, 8) {
+			cs.Fault = fmt.Sprintf("B%d", r.Rnd.Intn(8))
 		}
 		e.Do(cs, "random")
 	}
